@@ -16,6 +16,11 @@ def fuzz(name, test, seconds, **kw):
     return d
 
 PROPS = {
+    "C17": dict(pkg="chain", level="exploration", stages=[
+        direct("exhaustive", "TestC17Exhaustive"),
+        rapid("rapid", "TestC17", dict(shards=8, checks=1500), dict(shards=16, checks=40000, timeout=3000)),
+        fuzz("fuzz", "FuzzC17Ops", 180),
+    ]),
     "C20": dict(pkg="wallet", level="exploration", stages=[
         direct("vectors", "TestC20Vectors"),
         direct("sweep", "TestC20Sweep"),
